@@ -1163,6 +1163,12 @@ func TestArbitraryResponses(t *testing.T) {
 			k := rapid.SampledFrom([]int{0, 1, 10, 100, 500, 1023, 1024, 1025, 5000}).Draw(rt, "breaks-at")
 			c.Script.BodyFail, c.Script.BodyErr = &k, rapid.SampledFrom([]string{"unexpected-eof", "reset"}).Draw(rt, "breaks-how")
 		}
+		if ct := strings.ToLower(c.Script.CT); !success(c.Script.Status) && c.Script.BodyFail == nil && (len(c.ErrDoc) > 0 || ct == "" || strings.HasPrefix(ct, "text/plain")) &&
+			rapid.IntRange(0, 5).Draw(rt, "endless") == 0 {
+			// only where the client has all it needs after a bounded part of the body (an excerpt of a text, a complete
+			// DAV:error document): an XML document that never closes cannot be judged
+			c.Script.Endless = true
+		}
 		run(t, rt, c, fmt.Sprintf("arbitrary/%dxx", c.Script.Status/100))
 	})
 }
